@@ -99,31 +99,34 @@ theorem selectLoop_ok_inv (es : List Edge) (ok : Nat → Bool) :
 
 /-- a platform error names a rejected node that is a (transitive) dependency of one of the roots -/
 theorem selectLoop_err_inv (es : List Edge) (ok : Nat → Bool) :
-    ∀ (roots vis : List Nat) (c x : Nat),
-      selectLoop es ok roots vis c = .platformError x →
-        ok x = false ∧ ∃ r ∈ roots, Reach (flipEdges es) r x := by
+    ∀ (roots vis : List Nat) (c x cx : Nat),
+      selectLoop es ok roots vis c = .platformError x cx →
+        ok x = false ∧ (∃ r ∈ roots, Reach (flipEdges es) r x) ∧ cx ≤ c + roots.length + rem (flipEdges es) vis := by
   intro roots
   induction roots with
-  | nil => intro vis c x h; simp [selectLoop] at h
+  | nil => intro vis c x cx h; simp [selectLoop] at h
   | cons r rs ih =>
-    intro vis c x h
+    intro vis c x cx h
     simp only [selectLoop] at h
     by_cases hv : r ∈ vis
     · simp only [List.contains_iff_mem, hv, ↓reduceIte] at h
-      obtain ⟨h1, t, ht, hr⟩ := ih vis (c + 1) x h
-      exact ⟨h1, t, List.mem_cons_of_mem _ ht, hr⟩
+      obtain ⟨h1, ⟨t, ht, hr⟩, hc⟩ := ih vis (c + 1) x cx h
+      exact ⟨h1, ⟨t, List.mem_cons_of_mem _ ht, hr⟩, by simp only [List.length_cons]; omega⟩
     · simp only [List.contains_iff_mem, hv, ↓reduceIte] at h
+      have hsplit := rem_split (flipEdges es) vis r hv
       cases hd : dfs (flipEdges es) ok es.length (succs (flipEdges es) r) (r :: vis) with
       | bad cc ss =>
         simp only [hd, SelRes.platformError.injEq] at h
-        subst h
-        obtain ⟨h1, _, ⟨t, ht, hr⟩, _⟩ := dfs_bad_inv _ _ _ _ _ _ _ hd
-        exact ⟨h1, r, List.mem_cons_self .., Reach.step (mem_succs.mp ht) hr⟩
+        obtain ⟨rfl, rfl⟩ := h
+        obtain ⟨h1, _, ⟨t, ht, hr⟩, hs⟩ := dfs_bad_inv _ _ _ _ _ _ _ hd
+        exact ⟨h1, ⟨r, List.mem_cons_self .., Reach.step (mem_succs.mp ht) hr⟩, by simp only [List.length_cons]; omega⟩
       | fuel => simp [hd] at h
       | done vis' s =>
         simp only [hd] at h
-        obtain ⟨h1, t, ht, hr⟩ := ih vis' (c + 1 + s) x h
-        exact ⟨h1, t, List.mem_cons_of_mem _ ht, hr⟩
+        have I := dfs_done_inv _ _ _ _ _ _ _ hd
+        obtain ⟨h1, ⟨t, ht, hr⟩, hc⟩ := ih vis' (c + 1 + s) x cx h
+        have := I.steps
+        exact ⟨h1, ⟨t, List.mem_cons_of_mem _ ht, hr⟩, by simp only [List.length_cons]; omega⟩
 
 /-- the fuel `|E|` given to every traversal of the loop is always enough -/
 theorem selectLoop_ne_fuel (es : List Edge) (ok : Nat → Bool) :
